@@ -65,7 +65,12 @@ ASSUMPTIONS = [
     "parameters are vectors (a leading dimension is a sample dimension in torchtree); dense mass matrices are the only 2-D tensors",
     "ReduceLROnPlateau / CyclicLR / OneCycleLR / SequentialLR / ChainedScheduler cannot be driven by torchtree.Optimizer (step needs a metric / callables / scheduler objects) and are not generated; "
     "loggers are only attached to MCMC (Optimizer calls loggers as functions, which Logger does not support: outside this property)",
-    "a run whose *uninterrupted* execution raises or whose two identical executions differ is a harness error (the generator is meant to produce valid, deterministic runs), not a verdict",
+    "torch.optim.Optimizer.load_state_dict casts every floating-point state tensor except 'step' to the dtype of its parameter (also after torch.save / torch.load): "
+    "state that the optimiser itself keeps in another dtype (NAdam mu_product, ASGD eta / mu with a float32 parameter in a float64 session) is compared after that cast, "
+    "the trajectory of such a case is not compared, and LBFGS (one flat history for all parameters) is only generated with parameters of one dtype",
+    "a case whose *uninterrupted* execution raises inside torchtree (e.g. an adapted dense mass matrix that is no longer positive definite) is counted (label discarded_baseline_raises) and dropped; "
+    "MCMC.run's final per-operator summary divides by zero for an operator that was never drawn: tolerated, it happens after the last checkpoint; "
+    "two executions of the same configuration and seed that differ are a harness error, not a verdict",
 ]
 
 ALG_ID = {"opt": "opt", "mcmc": "mcmc"}
@@ -239,8 +244,7 @@ def snap_opt(alg):
         st_ = bykey.get(id(t))
         per[pid] = norm(st_) if st_ is not None else None
         pdtype[pid] = t.dtype
-        if isinstance(st_, dict):
-            lossy = lossy or any(isinstance(v, torch.Tensor) and k != "step" and v.is_floating_point() and v.dtype != t.dtype for k, v in st_.items())
+        lossy = lossy or _has_foreign_dtype(st_, t.dtype)
     attached = {id(t) for t in flat}
     orphans = sorted(repr(k) if not isinstance(k, torch.Tensor) else "<tensor>" for k in opt.state if id(k) not in attached)
     groups = [norm({k: v for k, v in g.items() if k != "params"}) for g in opt.param_groups]
@@ -307,21 +311,41 @@ def snapshot(alg):
 # =========================================================================== comparison of two snapshots
 def _torch_policy(state, dtype):
     """what torch.optim.Optimizer.load_state_dict itself does to the state of one parameter (independently of how
-    the state was stored): every floating point tensor except 'step' is cast to the dtype of the parameter.  Scalars
-    such as NAdam's mu_product or ASGD's eta / mu are created in the default dtype, so with a float32 parameter in
-    a float64 session they come back as float32 even from torch.save / torch.load: upstream behaviour, not asserted."""
-    if not (isinstance(state, dict) and state.get("#") == "dict") or dtype is None:
+    the state was stored): every floating point tensor except 'step' is cast to the dtype of the parameter, also
+    inside lists.  Scalars such as NAdam's mu_product or ASGD's eta / mu are created in the default dtype and
+    LBFGS keeps one flat (promoted) history under its first parameter, so with a float32 parameter in a float64
+    session they come back as float32 even from torch.save / torch.load: upstream behaviour, not asserted."""
+    if dtype is None:
         return state
-    items = []
-    for t, k, v in state["items"]:
-        if k != "step" and isinstance(v, dict) and v.get("#") == "tensor" and v["dtype"] in ("torch.float32", "torch.float64") and v["dtype"] != str(dtype):
-            v = dict(v, dtype=str(dtype), v=torch.tensor(v["v"], dtype=getattr(torch, v["dtype"].split(".")[-1])).to(dtype).tolist())
-        items.append([t, k, v])
-    return {"#": "dict", "items": items}
+
+    def cast(v, key=None):
+        if isinstance(v, dict) and v.get("#") == "tensor":
+            if key != "step" and v["dtype"] in ("torch.float32", "torch.float64", "torch.float16", "torch.bfloat16") and v["dtype"] != str(dtype):
+                src = getattr(torch, v["dtype"].split(".")[-1])
+                return dict(v, dtype=str(dtype), v=torch.tensor(v["v"], dtype=src).to(dtype).tolist())
+            return v
+        if isinstance(v, dict) and v.get("#") == "dict":
+            return {"#": "dict", "items": [[t, k, cast(x, k)] for t, k, x in v["items"]]}
+        if isinstance(v, list):
+            return [cast(x) for x in v]
+        return v
+
+    return cast(state)
 
 
-def compare(before, after, add):
-    """add(kind, detail, **tags) for every part of the run state that differs (iteration handled by the caller)"""
+def _has_foreign_dtype(v, dtype, key=None):
+    if isinstance(v, torch.Tensor):
+        return key != "step" and v.is_floating_point() and v.dtype != dtype
+    if isinstance(v, dict):
+        return any(_has_foreign_dtype(x, dtype, k) for k, x in v.items())
+    if isinstance(v, (list, tuple)):
+        return any(_has_foreign_dtype(x, dtype) for x in v)
+    return False
+
+
+def compare(before, after, add, restart=True):
+    """add(kind, detail, **tags) for every part of the run state that differs (iteration handled by the caller);
+    restart=True: `after` went through torch's load_state_dict, see _torch_policy"""
     d = []
     for pid in sorted(set(before["params"]) | set(after["params"])):
         diff(before["params"].get(pid, "<absent>"), after["params"].get(pid, "<absent>"), "param:" + pid, d)
@@ -331,12 +355,15 @@ def compare(before, after, add):
     if before["kind"] == "opt":
         d = []
         for pid in sorted(set(before["per_param"]) | set(after["per_param"])):
-            diff(_torch_policy(before["per_param"].get(pid), before["param_dtype"].get(pid)), after["per_param"].get(pid), "state[%s]" % pid, d)
-        if not d and not before["torch_casts_state"]:
+            bp = before["per_param"].get(pid)
+            diff(_torch_policy(bp, before["param_dtype"].get(pid)) if restart else bp, after["per_param"].get(pid), "state[%s]" % pid, d)
+        if not d and not (restart and before["torch_casts_state"]):
             diff(before["state_dict"], after["state_dict"], "state_dict", d)
         if d or after["orphans"]:
-            cause = "int_keys_as_str" if after["orphans"] and not before["orphans"] else "other"
-            add("optim_state", {"diffs": _dd(d), "unattached_state_keys_after_restart": after["orphans"][:6]}, bucket=before["cls"], cause=cause)
+            # state that is present after the restart but attached to no parameter (string keys "0", "1", ...)
+            lost_keys = bool(after["orphans"]) and not before["orphans"]
+            add("int_keys_lost:optimizer" if lost_keys else "optim_state",
+                {"diffs": _dd(d), "unattached_state_keys_after_restart": after["orphans"][:6]}, bucket=before["cls"])
         d = []
         diff(before["groups"], after["groups"], "param_groups", d)
         diff(before["group_sizes"], after["group_sizes"], "param_groups.sizes", d)
@@ -345,8 +372,8 @@ def compare(before, after, add):
         d = []
         diff(before["sched"], after["sched"], "scheduler", d)
         if d:
-            keytype = any("<int>" in p for p, _, _ in d)
-            add("scheduler", {"diffs": _dd(d)}, bucket=before["sched_cls"] or after["sched_cls"] or "Scheduler", cause="int_keys_as_str" if keytype else "other")
+            keytype = all("<int>" in p or q == "<absent>" for p, q, _ in d)  # only integer keys that came back as strings
+            add("int_keys_lost:scheduler" if keytype else "scheduler", {"diffs": _dd(d)}, bucket=before["sched_cls"] or after["sched_cls"] or "Scheduler")
         return
     # ---- MCMC
     cls = dict(after["cls"])
@@ -740,7 +767,8 @@ def tags_of(c):
         return {"alg": "Optimizer", "optim": c["optim"]["name"], "sched": (c.get("sched") or {}).get("name", "none"), "target": c["target"]}
     ops = sorted({o["type"] for o in c["ops"]})
     ads = sorted({a["type"] for o in c["ops"] if o["type"] == "hmc" for a in o["adaptors"]})
-    return {"alg": "MCMC", "operators": ops, "adaptors": ads or ["none"]}
+    default = c.get("argv_dtype") or "float64"
+    return {"alg": "MCMC", "operators": ops, "adaptors": ads or ["none"], "mixed_dtype": (c.get("dtype") or default) != default}
 
 
 def key_of(c, sub):
@@ -794,15 +822,34 @@ class HarnessProblem(Exception):
     pass
 
 
+class Discard(Exception):
+    """the uninterrupted execution itself failed inside torchtree (e.g. an adapted dense mass matrix that is not
+    positive definite in float32): no restart is involved, the property says nothing; the case is counted and dropped"""
+
+
 def _baseline(c, config, what, saves):
-    """an execution that the property does not speak about (no restart involved): failures here are harness problems"""
+    """an execution without restart"""
     try:
         dic, errs = run_main(argv_of(c, config), on_save=lambda alg: saves.append(snapshot(alg)))
     except Exception as e:  # noqa
-        raise HarnessProblem("%s raised %s: %s (%s)" % (what, type(e).__name__, e, impl_frame(e))) from None
+        if impl_frame(e) is None:
+            raise
+        raise Discard("%s:%s" % (type(e).__name__, (impl_frame(e) or "?").split(":")[-1])) from None
     if errs:
         raise HarnessProblem("%s logged errors: %s" % (what, errs[:3]))
     return dic
+
+
+def _discardable(body):
+    def wrapped(c):
+        try:
+            return body(c)
+        except Discard as e:
+            return Res(nontrivial=False, key=None, labels=("discarded_baseline_raises", "discarded:%s" % e), tags=tags_of(c))
+
+    wrapped.__name__ = body.__name__
+    return wrapped
+
 
 
 def _write(name, spec):
@@ -858,6 +905,7 @@ def _res(c, sub, need_continue):
     return Res(nontrivial=nontrivial(c, need_continue), key=key_of(c, sub), labels=labels_of(c), tags=tags_of(c))
 
 
+@_discardable
 def body_roundtrip(c):
     torch.manual_seed(c["torch_seed"])
     res = _res(c, "roundtrip", False)
@@ -888,6 +936,7 @@ def body_roundtrip(c):
     return res
 
 
+@_discardable
 def body_trajectory(c):
     torch.manual_seed(c["torch_seed"])
     res = _res(c, "trajectory", True)
@@ -911,7 +960,7 @@ def body_trajectory(c):
         before = part[-1]
         ref = full[N // f - 1]
         dd = []
-        compare(ref, before, lambda kind, detail, **t: dd.append((kind, detail)))
+        compare(ref, before, lambda kind, detail, **t: dd.append((kind, detail)), restart=False)
         if dd or not torch.equal(ref["rng"], before["rng"]):
             raise HarnessProblem("two executions of the same configuration and seed differ at epoch %d: %s" % (N, dd[:2]))
         # ---- restart and continue to T
@@ -938,6 +987,7 @@ def body_trajectory(c):
         compare(before, seen["snap"], res.fail)
         if len(res.fails) > n_before or not seen["usable"]:
             res.labels = tuple(res.labels) + ("trajectory_skipped_state_lost",)
+            res.nontrivial = False  # (b) was not evaluated for this case
             return res
         if before.get("torch_casts_state"):
             res.labels = tuple(res.labels) + ("trajectory_skipped_torch_casts_state",)
@@ -951,7 +1001,7 @@ def body_trajectory(c):
         for k, (e, r) in enumerate(zip(expect, resumed)):
             epoch = (N // f + k + 1) * f
             dd = []
-            compare(e, r, lambda kind, detail, **t: dd.append({"part": kind, **detail}))
+            compare(e, r, lambda kind, detail, **t: dd.append({"part": kind, **detail}), restart=False)
             if e["epoch"] != r["epoch"]:
                 dd.append({"part": "iteration", "diffs": [["_epoch", e["epoch"], r["epoch"]]]})
             if dd:
@@ -1089,6 +1139,8 @@ def opt_cases(draw, continue_=False, optim=None, sched="draw"):
              "a": round(draw(fl(0.5, 3.0)), 2), "b": round(draw(fl(0.5, 3.0)), 2)}
         if c["target"] == "elbo":
             p["qs"] = round(draw(fl(-2.0, 0.0)), 2)
+        if name == "LBFGS" and ps:
+            p["dtype"] = ps[0]["dtype"]  # see ASSUMPTIONS (one flat history for all parameters)
         ps.append(p)
     c["params"] = ps
     # (a parameter of a prior that is itself sampled by q is DESIGN section 8 #25, C10's subject: no link under the ELBO)
